@@ -8,7 +8,7 @@ use crate::spaces;
 use serde_json::json;
 
 pub fn run(ctx: &Ctx) -> Outcome {
-    let sp = spaces::c01_space(ctx.tier, ctx.seed ^ 8, false, 3, 4, 2, 2, 1_500, 20_000);
+    let sp = spaces::c01_space(ctx.tier, ctx.seed ^ 8, false, 3, 4, 2, 2, 10_000, 50_000);
     let mut patterns = sp.patterns;
     let small: Vec<Node> = {
         let mut g = gen::Gen::new(false);
